@@ -29,6 +29,9 @@
  *   open C FILE           > open <st>                  kdump_open_fd
  *   popen C FILE          > open <st>  and  > predump <tree before the failure teardown | ->
  *   nfiles C N            (same as set C file.set.number num:N)
+ *   nfilesoom C N K [SLOT STAGE]  > nfilesoom <st>     the same with the K-th allocation of the call failing (K beyond the
+ *                                                      call's allocations: nothing fails); SLOT/STAGE tell the model where
+ *   nfilescnt C N         > nfilescnt <st> <allocations made by the call>
  *   setfn C HEX|-         > setfn <st>                 kdump_set_filename (one name; - = NULL)
  * The persistence flag printed by `dump` is read from the library's private
  * struct attr_data through the reference (it is the "set by the application"
@@ -38,6 +41,7 @@
 #include <unistd.h>
 #include "kdumpfile-priv.h"
 #include "hcommon.h"
+#include "alloc.h"	/* n-th allocation failure (nfilesoom); link with kdf.ALLOC_WRAP */
 
 #define NCTX 16
 #define NREF 64
@@ -290,6 +294,20 @@ int main(void)
 			} else
 				st = kdump_set_filename(ctxs[c], NULL);
 			show("setfn", ctxs[c], st, NULL, NULL);
+		} else if (sscanf(line, "nfilesoom %d %d %d", &c, &d, &i) == 3) {
+			at.type = KDUMP_NUMBER; at.val.number = d;
+			alloc_reset(); alloc_fail_at = i;
+			st = kdump_set_attr(ctxs[c], "file.set.number", &at);
+			alloc_reset();
+			show("nfilesoom", ctxs[c], st, NULL, NULL);
+		} else if (sscanf(line, "nfilescnt %d %d", &c, &d) == 2) {
+			unsigned long cnt;
+			at.type = KDUMP_NUMBER; at.val.number = d;
+			alloc_reset();
+			st = kdump_set_attr(ctxs[c], "file.set.number", &at);
+			cnt = alloc_count;
+			alloc_reset();
+			printf("> nfilescnt %s %lu\n", kstatus_name(st), cnt);
 		} else if (sscanf(line, "nfiles %d %d", &c, &d) == 2) {
 			at.type = KDUMP_NUMBER; at.val.number = d;
 			st = kdump_set_attr(ctxs[c], "file.set.number", &at);
